@@ -20,21 +20,31 @@ pub fn run_histories(
             let hseed = splitmix(s ^ (h as u64).wrapping_mul(0xA24B_AED4_963E_E407));
             let mut r = rnd::rng(hseed);
             let cfg = cfg_of(&mut r);
-            let mut w = World::new(r);
-            let mut mons = monitors();
-            let before = acc.violations.len();
-            let mut hist = Hist::scenario(&mut w, &cfg, &mut mons);
-            hist.run(&mut w, &mut mons, &mut acc);
-            acc.count("histories");
-            acc.add("svm_panics_contained", w.svm.panics);
-            // attach the history to violations raised during it
-            let rv = hist.replay_value(&w, hseed);
-            for v in acc.violations[before..].iter_mut() {
-                v.replay = json!({"history": rv, "at": v.replay});
-            }
-            if shard == 0 && h == 0 {
-                let n = hist.log.entries.len();
-                acc.sample(json!({"history_seed": hseed, "scenario": hist.scenario, "ops": n, "first_ops": hist.log.entries.iter().take(6).collect::<Vec<_>>() }));
+            // one history whose SET-UP the tree under test refuses (a harness `must` failing) is abandoned and counted;
+            // it must not take the other histories of the shard - and what their monitors would see - with it
+            let one = crate::svm::quiet_catch(|| {
+                let mut w = World::new(r);
+                let mut mons = monitors();
+                let before = acc.violations.len();
+                let mut hist = Hist::scenario(&mut w, &cfg, &mut mons);
+                hist.run(&mut w, &mut mons, &mut acc);
+                acc.count("histories");
+                acc.add("svm_panics_contained", w.svm.panics);
+                // attach the history to violations raised during it
+                let rv = hist.replay_value(&w, hseed);
+                for v in acc.violations[before..].iter_mut() {
+                    v.replay = json!({"history": rv, "at": v.replay});
+                }
+                if shard == 0 && h == 0 {
+                    let n = hist.log.entries.len();
+                    acc.sample(json!({"history_seed": hseed, "scenario": hist.scenario, "ops": n, "first_ops": hist.log.entries.iter().take(6).collect::<Vec<_>>() }));
+                }
+            });
+            if let Err(m) = one {
+                acc.count("histories_abandoned_on_a_harness_panic");
+                if acc.notes.len() < 3 {
+                    acc.notes.push(format!("history {hseed} abandoned: {}", m.chars().take(240).collect::<String>()));
+                }
             }
         }
         acc
